@@ -3,6 +3,7 @@ package c17
 import (
 	"fmt"
 	"math"
+	"strings"
 	"sync"
 	"testing"
 
@@ -65,6 +66,43 @@ func stressCall(fn string, in [4]geom.Coord) string {
 			s += fmt.Sprintf(" %x,%x", math.Float64bits(c[0]), math.Float64bits(c[1]))
 		}
 		return s
+	case "crossing":
+		// ordinates that are not short binary fractions (so that every step rounds), and an
+		// end point of the second segment computed onto the first one: a crossing, a touch
+		// or a miss within rounding of that end point - where the computed point may fall
+		// outside an envelope and the implementation falls back on an end point
+		// The first segment is long and shallow (a thin envelope); the second is short,
+		// starts on it and ends below its envelope at the place nearest to the mean of
+		// the four points, which is the end point the fall-back then picks.
+		L, h := 7+p0[0]*0.01, 0.013*(1+float64(int(p1[1])%9))
+		fr := q[0]*0.37 + q[1]*0.011
+		fr -= math.Floor(fr)
+		// (the crossing sits near the origin, where the spacing of the doubles is as fine
+		// as the error of the computation: that is where a computed point leaves an envelope)
+		a := geom.Coord{-fr*L + p0[0]*1e-4/3, -fr*h + p0[1]*1e-5/7}
+		b := geom.Coord{a[0] + L, a[1] + h}
+		qq := geom.Coord{a[0] + fr*(b[0]-a[0]), a[1] + fr*(b[1]-a[1])}
+		r2 := geom.Coord{qq[0] + (1-2*fr)*L/3, qq[1] - 0.5}
+		if int(r[0])%2 == 0 { // mirrored: above the envelope
+			r2[1] = qq[1] + 0.5 + h
+		}
+		keep := [4]geom.Coord{a.Clone(), b.Clone(), qq.Clone(), r2.Clone()}
+		res := lineintersector.LineIntersectsLine(lineintersector.RobustLineIntersector{}, a, b, qq, r2)
+		for k, c := range []geom.Coord{a, b, qq, r2} {
+			if c[0] != keep[k][0] || c[1] != keep[k][1] {
+				return fmt.Sprintf("INPUT MODIFIED: argument %d of LineIntersectsLine(%v, %v, %v, %v) is now %v", k, keep[0], keep[1], keep[2], keep[3], c)
+			}
+		}
+		s := fmt.Sprint(res.Type())
+		for _, c := range res.Intersection() {
+			s += fmt.Sprintf(" %x,%x", math.Float64bits(c[0]), math.Float64bits(c[1]))
+			for k, e := range keep {
+				if c[0] == e[0] && c[1] == e[1] {
+					s += fmt.Sprintf(" =end%d", k)
+				}
+			}
+		}
+		return s
 	case "hull":
 		flat := []float64{p0[0], p0[1], q[0], q[1], p1[0], p1[1], r[0], r[1], (p0[0] + p1[0]) / 2, (p0[1] + p1[1]) / 2, p0[0], p0[1]}
 		h := xy.ConvexHullFlat(geom.XY, flat)
@@ -82,6 +120,9 @@ func propStress(c StressCase) error {
 	alone := make([]string, len(in))
 	for i := range in {
 		alone[i] = stressCall(c.Fn, in[i])
+		if strings.HasPrefix(alone[i], "INPUT MODIFIED") {
+			return fmt.Errorf("%s on input %d: %s", c.Fn, i, alone[i])
+		}
 	}
 	var mu sync.Mutex
 	var first error
@@ -109,7 +150,21 @@ func propStress(c StressCase) error {
 		}(g)
 	}
 	wg.Wait()
-	return first
+	if first != nil {
+		return first
+	}
+	// and nothing handed over was written to
+	fresh := stressInputs(c.K, c.Round)
+	for i := range in {
+		for k := range in[i] {
+			for d := range in[i][k] {
+				if math.Float64bits(in[i][k][d]) != math.Float64bits(fresh[i][k][d]) {
+					return fmt.Errorf("%s changed ordinate %d of argument %d of input %d from %v to %v", c.Fn, d, k, i, fresh[i][k][d], in[i][k][d])
+				}
+			}
+		}
+	}
+	return nil
 }
 
 var stressSpec = run.Spec[StressCase]{ID: "C17", Name: "stress", Prop: propStress, Classify: func(c StressCase) ([]string, bool) {
@@ -128,7 +183,7 @@ func stress(t *testing.T) {
 	}
 	n := 0
 	for round := 0; round < rounds; round++ {
-		for _, fn := range []string{"orientation", "ring", "intersect", "hull"} {
+		for _, fn := range []string{"orientation", "ring", "intersect", "crossing", "hull"} {
 			n++
 			if n%shards != shard {
 				continue
